@@ -13,7 +13,16 @@ let rd_mat r = ok (mat_of_entries (table r))
    which has the object's entries *)
 let step r =
   let nat r = nat_of_int (integer r) in
+  let call o = HCall o in
   match word r with
+  (* references into the object held by the caller: taken (hold / holde) and written through later *)
+  | "hold" -> let h = nat r in let i = nat r in HHoldRow (h, i)
+  | "holde" -> let h = nat r in let i = nat r in let j = nat r in HHoldElt (h, i, j)
+  | "hset" -> let h = nat r in let j = nat r in let v = num r in HRowSet (h, j, v)
+  | "hswap" -> let h1 = nat r in let h2 = nat r in HRowSwap (h1, h2)
+  | "hrow" -> let h = nat r in let l = list r in HRowAssign (h, l)
+  | "eset" -> let h = nat r in let v = num r in HEltSet (h, v)
+  | w -> call (match w with
   | "det" -> QDet | "invertible" | "copyinvertible" -> QInvertible | "inverse" | "copyinverse" -> QInverse
   | "orthogonal" -> QOrthogonal
   | "copydet" -> QCopyDet | "transdet" -> QTransDet
@@ -25,7 +34,7 @@ let step r =
   | "assign" -> let i = nat r in let j = nat r in let v = num r in UAssign (i, j, v)
   | "resize" -> let i = nat r in let j = nat r in UResize (i, j)
   | "delrow" -> UDelRow (nat r) | "delcol" -> UDelCol (nat r)
-  | o -> raise (Out ("MODELERR unknown_step_" ^ o))
+  | o -> raise (Out ("MODELERR unknown_step_" ^ o)))
 
 let handler r =
   try
@@ -46,7 +55,7 @@ let handler r =
   | "seq" -> let a = rd_mat r in let k = integer r in
       let rec steps n = if n <= 0 then [] else let s = step r in s :: steps (n - 1) in
       let ops = steps k in
-      let (_, outs) = ok (srun fops ops a) in
+      let (_, outs) = ok (hrun fops ops a) in
       List.iter (function
         | ODet d -> put_w "D"; put_f d; put_f d
         | OFlag b -> put_w "F"; put_b b; put_b b
@@ -59,7 +68,7 @@ let handler r =
       let k = integer r in
       let rec steps n = if n <= 0 then [] else let o = nat_of_int (integer r) in let s = step r in (o, s) :: steps (n - 1) in
       let ops = steps k in
-      let (_, outs) = ok (mrun fops ops ms) in
+      let (_, outs) = ok (hmrun fops ops ms) in
       List.iter (function
         | ODet d -> put_w "D"; put_f d
         | OFlag b -> put_w "F"; put_b b
